@@ -67,6 +67,16 @@ def date_var(L, alias="d"):
     return S.cat(alias, L, "first", date=True)
 
 
+def date_var_first_undated(L, alias="d"):
+    """categorical-date variable whose first valid category carries no date (a date on ANY category makes it one)"""
+    from mc.model import CatVar
+    v = S.cat(alias, L, "first", date=True)
+    cats = [dict(c) for c in v.cats]
+    k = next(i for i, c in enumerate(cats) if not c.get("missing"))
+    cats[k].pop("date", None)
+    return CatVar(v.alias, cats)
+
+
 G2 = S.cat("g", 2, "last", values=[1, 3])
 C3 = S.cat("c", 3, "first")
 M2 = S.mr("m", 2)
@@ -98,6 +108,8 @@ for _L in (1, 2, 3, 4):
     _reg("e2e_cat_x_date_L%d" % _L, S.schema2("e%d" % _L, G2, date_var(_L)), "e2e", L=_L,
          cfgs=[{}, {"rows": rsub}, {"rows": rdiff}], weights=(1,), quick=2 if _L < 4 else 1, thorough=3 if _L < 4 else 2)
 G3n = S.cat("g", 3, "last", values=[1, None, 3])
+_reg("e2e_cat_x_date_first_undated_L3", S.schema2("eu3", G2, date_var_first_undated(3)), "e2e", L=3, cfgs=[{}], weights=(1,),
+     quick=2, thorough=3)
 _reg("e2e_cat3none_x_date_L3", S.schema2("e3n", G3n, date_var(3)), "e2e", L=3, cfgs=[{}], weights=(1,), quick=2, thorough=3)
 _reg("e2e_mr_x_date_L3", S.schema2("em3", M2, date_var(3)), "e2e", L=3, cfgs=[{}], weights=(1,), quick=1, thorough=2)
 _reg("e2e_cat_x_cat_notdate", S.schema2("en", G2, C3), "e2e", L=3, cfgs=[{}], weights=(1,), quick=2, thorough=3,
